@@ -81,7 +81,7 @@ fn shape(feats: &[&'static str]) -> &'static str {
         return if feats.contains(&"join_using") { "alias_shadows_column+join_using" } else { "alias_shadows_column" };
     }
     for f in [
-        "cte_redefined_in_subquery", "set_operation", "join_using", "join_full", "join_right", "join_left", "join_cross", "join_inner", "group_by_expr", "having",
+        "cte_redefined_in_subquery", "cte_shadows_table", "set_operation", "join_using", "join_full", "join_right", "join_left", "join_cross", "join_inner", "group_by_expr", "having",
         "count_distinct", "sum_distinct", "expr_of_aggs", "agg_of_expr", "distinct", "group_by", "aggregate", "derived_table", "cte",
         "select_star", "limit", "order_by",
     ] {
@@ -93,6 +93,12 @@ fn shape(feats: &[&'static str]) -> &'static str {
 }
 
 pub fn check_case(cat: &Catalog, g: &GenQuery, rep: &mut Report) {
+    check_case_with(cat, g, rep, "C08", false)
+}
+
+/// `sqlite_translation`: the rendering under test is the SQLite translation, executed on a plain
+/// connection (no compatibility functions); rejections by the engine are judged elsewhere (C17)
+pub fn check_case_with(cat: &Catalog, g: &GenQuery, rep: &mut Report, prefix: &str, sqlite_translation: bool) {
     let sql = &g.sql;
     let relations = cat.relations();
     let db = Db::new(true, RandomMode::Counter);
@@ -122,15 +128,32 @@ pub fn check_case(cat: &Catalog, g: &GenQuery, rep: &mut Report) {
             return;
         }
     };
-    let rendered = match render(&rel) {
-        Ok(s) => s,
-        Err(_) => {
-            rep.count("render_panic");
-            return;
+    let rendered = if sqlite_translation {
+        match guarded(|| {
+            sqlparser::ast::Query::from(qrlew::dialect_translation::RelationWithTranslator(&rel, qrlew::dialect_translation::sqlite::SQLiteTranslator)).to_string()
+        }) {
+            Ok(s) => s,
+            Err(_) => return,
+        }
+    } else {
+        match render(&rel) {
+            Ok(s) => s,
+            Err(_) => {
+                rep.count("render_panic");
+                return;
+            }
         }
     };
-    let got = match db.run_rendered(&rendered) {
+    let plain = Db::new(false, RandomMode::Counter);
+    if sqlite_translation && cat.load(&plain).is_err() {
+        return;
+    }
+    let got = match if sqlite_translation { plain.run_rendered(&rendered) } else { db.run_rendered(&rendered) } {
         Ok(r) => r,
+        Err(_) if sqlite_translation => {
+            rep.count("sqlite_translation_rejected_by_the_engine(judged by the dialect leg)");
+            return;
+        }
         Err(e) => {
             rep.eval();
             let e_class = if e.contains("no such column") {
@@ -142,9 +165,9 @@ pub fn check_case(cat: &Catalog, g: &GenQuery, rep: &mut Report) {
             };
             rep.violation(
                 if e.contains("duplicate WITH table name") {
-                    format!("C08|rendered-query-rejected|{}", e_class)
+                    format!("{}|rendered-query-rejected|{}", prefix, e_class)
                 } else {
-                    format!("C08|rendered-query-rejected|{}|{}", e_class, if g.ordered { "order_by" } else { shape(&g.features) })
+                    format!("{}|rendered-query-rejected|{}|{}", prefix, e_class, if g.ordered { "order_by" } else { shape(&g.features) })
                 },
                 format!("the engine accepts the original query but rejects the rendered one: {}", e.chars().take(300).collect::<String>()),
                 json!({"catalog": cat.to_json(10), "query": sql, "rendered": rendered}),
@@ -153,7 +176,7 @@ pub fn check_case(cat: &Catalog, g: &GenQuery, rep: &mut Report) {
         }
     };
     rep.eval();
-    rep.count("compared_queries");
+    rep.count(if sqlite_translation { "sqlite_translation_compared_with_the_original_query" } else { "compared_queries" });
     for f in g.features.iter() {
         rep.count(&format!("feature:{}", f));
     }
@@ -183,9 +206,9 @@ pub fn check_case(cat: &Catalog, g: &GenQuery, rep: &mut Report) {
     let is_class = class.is_some();
     let sig = |kind: &str| -> String {
         if is_class {
-            format!("C08|result-differs|{}", cause)
+            format!("{}|result-differs|{}", prefix, cause)
         } else {
-            format!("C08|{}|{}", kind, cause)
+            format!("{}|{}|{}", prefix, kind, cause)
         }
     };
     // column count
